@@ -66,6 +66,22 @@ Theorem find_solution_least_cost : forall a d c, find_solution a d = Some c ->
 Proof. exact find_solution_min_cost. Qed.
 Print Assumptions find_solution_least_cost.
 
+(* search level: in the linear-search phase the returned duration is the SMALLEST duration of the range
+   [min_duration, lin_max] for which _find_solution succeeds (unconditional) *)
+Theorem eta_linear_smallest_feasible : forall fd fb a o, eta fd fb a = OK o -> (o_dur o <= lin_max a)%Z ->
+  find_solution a (o_dur o) <> None /\ (min_duration a <= o_dur o)%Z /\
+  forall d', (min_duration a <= d' < o_dur o)%Z -> find_solution a d' = None.
+Proof. exact eta_linear_smallest_feasible_lem. Qed.
+Print Assumptions eta_linear_smallest_feasible.
+
+(* search level, binary-search phase included, under the monotonicity hypothesis (PARTIAL, see below) *)
+Theorem eta_smallest_feasible_partial : forall fd fb a o, eta fd fb a = OK o ->
+  Monotone_feasible_from a (lin_max a) ->
+  find_solution a (o_dur o) <> None /\
+  forall d', (min_duration a <= d' < o_dur o)%Z -> find_solution a d' = None.
+Proof. exact eta_binary_smallest_feasible_lem. Qed.
+Print Assumptions eta_smallest_feasible_partial.
+
 (* linear-search phase (returned duration within the ramp-to-zero bound): the result is the SMALLEST duration
    with a solution, hence no two-ramp gradient within 99 percent of the limits with fewer rasters exists.
    Unconditional apart from max_slew > 0. *)
